@@ -20,11 +20,11 @@ func init() {
 		Cases: func(tier string) int {
 			switch tier {
 			case "thorough":
-				return 2000000
+				return 8000000
 			case "race":
 				return 40000
 			}
-			return 300000
+			return 2400000
 		},
 		Run:            c11Run,
 		Floor:          func(tier string) int { return 3000 },
